@@ -23,6 +23,8 @@ def run(ctx):
         if mode == 'pair':
             sc['concurrent'] = i % 3 == 0
             sc['dur'] = 1.0 if sc['concurrent'] else 0
+        sc['conc'] = 2 if i % 4 == 1 else 1          # values whose hashes collide
+        sc['retnone'] = i % 5 == 2                    # the function legitimately returns None
         scs.append(sc)
     if ctx.tier == 'thorough' and len(scs) > 150000:
         keep = [sc for sc in scs if sc['mode'] == 'ops']
@@ -51,7 +53,8 @@ def run(ctx):
             s2 = sig()
         conc = rng.random() < 0.4
         extra.append({'kind': 'keys', 'mode': 'pair', 's1': s1, 's2': s2, 'ops': [], 'lru': 0,
-                      'concurrent': conc, 'dur': 1.0 if conc else 0})
+                      'concurrent': conc, 'dur': 1.0 if conc else 0, 'conc': rng.choice([1, 2]),
+                      'retnone': rng.random() < 0.2})
     for fam, part in (('tlc_enumerated', scs), ('random_longer', extra)):
         for off in range(0, len(part), 8000):
             ctx.run_and_validate(DRIVER, COMP, 'KeysTrace', part[off:off + 8000], fam,
